@@ -225,6 +225,8 @@ pub struct Cfg {
     pub record_io: bool,
     /// Elements each vector holds (committed) before the threads start.
     pub prefix: usize,
+    /// C11 only: every thread works on thread 0's regions.
+    pub shared_regions: bool,
     pub trace: bool,
 }
 
@@ -232,7 +234,7 @@ impl Cfg {
     pub fn to_json(&self) -> Value {
         json!({"property": self.property, "seed": self.seed, "strategy": self.strategy, "early_fire": self.early_fire,
                "nthreads": self.nthreads, "vec_kinds": self.vec_kinds, "initial_min_len": self.initial_min_len,
-               "crossover": self.crossover, "record_io": self.record_io, "prefix": self.prefix})
+               "crossover": self.crossover, "record_io": self.record_io, "prefix": self.prefix, "shared_regions": self.shared_regions})
     }
     pub fn from_json(v: &Value) -> Cfg {
         Cfg {
@@ -246,6 +248,7 @@ impl Cfg {
             crossover: v["crossover"].as_u64().unwrap_or(1 << 30) as usize,
             record_io: v["record_io"].as_bool().unwrap_or(false),
             prefix: us(v, "prefix"),
+            shared_regions: v["shared_regions"].as_bool().unwrap_or(false),
             trace: std::env::var("VERIF_TRACE").is_ok(),
         }
     }
@@ -264,6 +267,8 @@ impl Cfg {
 /// Per-thread state while it runs.
 struct ThreadCtx {
     t: usize,
+    /// thread whose region namespace this thread works in (== t unless regions are shared)
+    ns: usize,
     db: Database,
     /// own regions: r -> (current name generation, model bytes) ; None = removed / not created
     regions: BTreeMap<usize, (usize, Vec<u8>)>,
@@ -297,14 +302,14 @@ impl ThreadCtx {
     }
     fn region(&self, r: usize) -> Option<(Region, String)> {
         let (generation, _) = self.regions.get(&r)?;
-        let name = rname(self.t, r, *generation);
+        let name = rname(self.ns, r, *generation);
         self.db.get_region(&name).map(|x| (x, name))
     }
 
     fn check_own(&self, r: usize, op: &TOp) {
         // per-thread isolation: my region holds exactly what my own ops produced
         let Some((generation, model)) = self.regions.get(&r) else { return };
-        let name = rname(self.t, r, *generation);
+        let name = rname(self.ns, r, *generation);
         let Some(reg) = self.db.get_region(&name) else {
             self.violation("isolation-region-missing", op, format!("region '{name}' vanished"));
             return;
@@ -350,10 +355,12 @@ impl ThreadCtx {
         }
         match op {
             TOp::Create { r } => {
-                if self.regions.contains_key(r) {
+                if self.regions.contains_key(r) || *r < 2 {
+                    // regions 0/1 exist from the preparation; once removed they stay removed so that
+                    // a reader's expectation (the preparation snapshot) never becomes ambiguous
                     return;
                 }
-                let name = rname(self.t, *r, 0);
+                let name = rname(self.ns, *r, 0);
                 match self.db.create_region_if_needed(&name) {
                     Ok(_) => {
                         self.regions.insert(*r, (0, Vec::new()));
@@ -383,7 +390,7 @@ impl ThreadCtx {
             TOp::Rename { r } => {
                 let Some((reg, name)) = self.region(*r) else { return };
                 let generation = self.regions[r].0 + 1;
-                let new = rname(self.t, *r, generation);
+                let new = rname(self.ns, *r, generation);
                 match reg.rename(&new) {
                     Ok(()) => self.regions.get_mut(r).unwrap().0 = generation,
                     Err(e) => self.violation("unexpected-error", op, format!("rename '{name}' failed: {e}")),
@@ -511,8 +518,10 @@ impl ThreadCtx {
         let got = reader.read(0, n);
         if got != &snap[..n] {
             let at = got.iter().zip(snap.iter()).position(|(a, b)| a != b).unwrap_or(0);
+            // what happened to the region while the reader was alive decides the class
+            let fate = if self.db.get_region(name).is_none() { "region-removed-under-reader" } else { "region-live" };
             self.violation(
-                "reader-foreign-bytes",
+                &format!("reader-foreign-bytes/{fate}"),
                 op,
                 format!("reader on '{name}' (snapshot len {}) returned a byte at offset {at} that the region never held there", reader.len()),
             );
@@ -537,7 +546,18 @@ impl ThreadCtx {
                 let check = |i: usize, val: u64| -> Result<(), String> {
                     if val == g(vid, i) { Ok(()) } else { Err(format!("index {i} (observed len {len}) read {val:#x}, the writer pushed {:#x}", g(vid, i))) }
                 };
-                match how % 4 {
+                match how % 5 {
+                    4 => {
+                        // speculative point read at or beyond the observed length: nothing, or the writer's element
+                        let i = len + b % 3;
+                        if let Some(val) = x.collect_one_at(i) {
+                            check(i, val)?;
+                        }
+                        let j = from;
+                        if let Some(val) = x.collect_one_at(j) {
+                            check(j, val)?;
+                        }
+                    }
                     0 => {
                         let got = x.collect_range_at(from, to);
                         if got.len() != to - from {
@@ -730,10 +750,12 @@ fn run_case_inner(cfg: &Cfg, prog: &Program, stats: &mut Stats, dir: &std::path:
     let snapshot = Arc::new(snapshot);
     let with_compaction = prog.threads.iter().flatten().any(|o| matches!(o, TOp::Compact | TOp::BgCompact));
     for t in 0..nthreads {
+        let ns = if cfg.shared_regions { 0 } else { t };
         ctxs.push(ThreadCtx {
             t,
+            ns,
             db: db.clone(),
-            regions: regions_per_thread[t].clone(),
+            regions: regions_per_thread[ns].clone(),
             reader: None,
             vec: vecs[t].take(),
             pushed_total: pushed0[t],
@@ -858,7 +880,7 @@ fn run_case_inner(cfg: &Cfg, prog: &Program, stats: &mut Stats, dir: &std::path:
         }
         for ctx in finals.iter().flatten() {
             for (r, (generation, model)) in &ctx.regions {
-                let name = rname(ctx.t, *r, *generation);
+                let name = rname(ctx.ns, *r, *generation);
                 let Some(reg) = db.get_region(&name) else {
                     return Err(Fail::Violation(Violation::new(&cfg.property, "final-region-missing", format!("region '{name}' missing at the end"))));
                 };
@@ -966,6 +988,7 @@ impl W5Check {
             crossover: *rng.pick(&[0usize, 1 << 30, 1 << 30]),
             record_io: self.id == "C12",
             prefix: *rng.pick(&[0usize, 5, 2040, 2047, 2048]),
+            shared_regions: false,
             trace: false,
         };
         let mut ops: Vec<Value> = Vec::new();
@@ -997,7 +1020,7 @@ impl W5Check {
                 }
                 for th in threads.iter_mut().skip(1) {
                     for _ in 0..rng.range(2, 6) {
-                        th.push(TOp::VRead { v: 0, how: rng.below(4) as u8, a: rng.next() as usize >> 16, b: rng.next() as usize >> 16 });
+                        th.push(TOp::VRead { v: 0, how: rng.below(5) as u8, a: rng.next() as usize >> 16, b: rng.next() as usize >> 16 });
                     }
                 }
             }
@@ -1022,8 +1045,9 @@ impl W5Check {
                                 continue;
                             }
                             // regions 0/1 of a thread may be observed by a reader: keep them append-only
+                            // (a removal is fine: it must be refused while somebody holds a reader)
                             let touches_observed = match &op {
-                                TOp::WriteAt { r, .. } | TOp::Truncate { r, .. } | TOp::Rename { r } | TOp::Remove { r } => *r < 2,
+                                TOp::WriteAt { r, .. } | TOp::Truncate { r, .. } | TOp::Rename { r } => *r < 2,
                                 _ => false,
                             };
                             if !touches_observed {
@@ -1078,6 +1102,16 @@ impl W5Check {
                         threads[1].push(rd(&mut rng));
                         threads[1].push(rd(&mut rng));
                         threads[2].push(TOp::Append { r: rng.below(2), len: 300_000, tag: tag.wrapping_add(2) });
+                    }
+                    1 if rng.chance(1, 2) => {
+                        // several threads on the SAME region (Region is Clone + Sync): truncate vs rename vs flush
+                        cfg.shared_regions = true;
+                        threads[0].push(TOp::Truncate { r: 0, to: rng.next() as usize >> 20 });
+                        threads[0].push(TOp::Truncate { r: 1, to: rng.next() as usize >> 20 });
+                        threads[1].push(if rng.chance(1, 2) { TOp::Rename { r: 0 } } else { TOp::Create { r: 2 } });
+                        threads[1].push(TOp::Rename { r: 1 });
+                        threads[2].push(TOp::Flush);
+                        threads[2].push(TOp::FlushRegion { r: 0 });
                     }
                     1 => {
                         threads[0].push(TOp::Append { r: 0, len: 10, tag: tag.wrapping_add(2) });
